@@ -363,6 +363,14 @@ class RInt:
 
     # --- assertions -----------------------------------------------------------
     def _assert(self, other, f, d, what):
+        if isinstance(other, (RFxp, float)):
+            # the relation between an integer and a fixed-point number is the numeric one; the API refuses the combination
+            # (it may), it must not accept a false one
+            flag("integer assertion with a fixed-point operand: the API may refuse")
+            o = other.num() if isinstance(other, RFxp) else other
+            if not f(self.v, o):
+                raise MustRaise("assert_%s(%d, %s) is false" % (what, self.v, o))
+            return
         o = plain_int(other)
         if o is None or isinstance(other, RBool):
             raise TypeError("assert_%s: unsupported operand" % what)
